@@ -16,6 +16,7 @@ import (
 	"fmt"
 	"os"
 	"runtime"
+	"sort"
 	"strings"
 	"sync/atomic"
 	"time"
@@ -62,12 +63,15 @@ type pstep struct {
 	St      pstate `json:"st"`
 }
 
-var run *core.Run
+var (
+	run  *core.Run
+	tier string
+)
 
 func main() {
 	runtime.GOMAXPROCS(1)
 	runtime.LockOSThread()
-	tier := os.Getenv("VERIF_TIER")
+	tier = os.Getenv("VERIF_TIER")
 	if tier == "" {
 		tier = "quick"
 	}
@@ -75,7 +79,7 @@ func main() {
 	run.Rule = "one history per transition of the complete state graph of ParserInst.tla and TokInst.tla (quick) / per pair of consecutive transitions (thorough), each replayed on a real instance through the real pools; non-trivial = the history contains a call made after at least one earlier state-changing operation (reuse)"
 	run.Assumptions = []string{
 		"sync.Pool identity is pinned with GOMAXPROCS(1)+LockOSThread so that the instance put is the instance got (a dropped instance is treated as a fresh one, which the specification also allows)",
-		"input classes are concretised by fixed statements chosen so that each instance field is observable (strict: ';; SELECT 1 ;;', dialect: 'LIMIT 10, 20', positions: error location, depth: nesting at limit-1)",
+		"each abstract input class has several concrete spellings (failures inside every nesting construct, nesting at the calibrated limit of three constructs, leading blanks/tabs/newlines, comments); every history is replayed under several pseudo-randomly chosen concretisations (6 quick / 30 thorough), seeded by VERIF_SEED",
 	}
 	if len(os.Args) > 2 && os.Args[1] == "--replay" {
 		replay(os.Args[2])
@@ -108,18 +112,121 @@ func main() {
 			if err := json.Unmarshal([]byte(c), &h); err != nil {
 				core.Fatalf("bad history %q: %v", c, err)
 			}
-			if m.what == "parser" {
-				replayParser(h)
-			} else {
-				replayTokenizer(h)
+			for v := 0; v < variants; v++ {
+				if m.what == "parser" {
+					replayParser(h, v)
+				} else {
+					replayTokenizer(h, v)
+				}
+				n++
 			}
-			n++
 		}
 		run.Traces(int64(n))
 		run.Extra[m.what+"_histories"] = n
 	}
+	pairPass()
 	run.Exhaustive = true
 	run.Finish()
+}
+
+// pairPass concretises the abstract paths Call;Call, Call;Reset;Call, Call;Release;Call and
+// Call;Put;Get;Call of the two specifications with EVERY ordered pair of spellings (the random
+// concretisation of the tour only samples pairs): the second call must equal the call on a fresh instance.
+func pairPass() {
+	all := func(m map[string][]string, skip string) []string {
+		seen := map[string]bool{}
+		var out []string
+		for c, l := range m {
+			if c == skip {
+				continue
+			}
+			for _, s := range l {
+				if !seen[s] {
+					seen[s] = true
+					out = append(out, s)
+				}
+			}
+		}
+		sort.Strings(out)
+		return out
+	}
+	n := 0
+	// tokenizer
+	ts := all(tokSpell, "")
+	for _, a := range ts {
+		for _, b := range ts {
+			for _, sep := range []string{"none", "Reset", "PutGet"} {
+				for _, op := range []string{"Tokenize", "TokenizeCtx"} {
+					t := newTok("")
+					_, _ = tokCall(t, op, a)
+					switch sep {
+					case "Reset":
+						t.Reset()
+					case "PutGet":
+						tokenizer.PutTokenizer(t)
+						t = tokenizer.GetTokenizer()
+						poolDirty = true
+					}
+					got, _ := tokCall(t, op, b)
+					want, _ := tokCall(newTok(""), op, b)
+					run.Eval(1)
+					n++
+					run.Nontrivial("tp" + a + "\x00" + b + sep + op)
+					if got != want {
+						run.Violate(core.Violation{Sig: "result-differs-from-fresh|tokenizer|" + op + "|" + diffKind(got, want),
+							Clause: "the outcome of a call depends only on its input and the holder's configuration",
+							Case:   map[string]any{"machine": "tokenizer-pairs", "first": a, "separator": sep, "second": b, "op": op}, Observe: got, Expect: want})
+					}
+				}
+			}
+		}
+	}
+	// parser (default configuration, so the dialect-dependent class is an ordinary rejected input here)
+	ps := all(parserSpell, "")
+	ops1 := []string{"Parse", "ParsePos", "CtxFire"}
+	ops2 := []string{"Parse", "ParsePos", "Recovery"}
+	if tier != "thorough" {
+		ops1 = []string{"Parse", "CtxFire"}
+		ops2 = []string{"ParsePos", "Recovery"}
+	}
+	for _, a := range ps {
+		for _, b := range ps {
+			for _, sep := range []string{"none", "Reset", "Release", "PutGet"} {
+				for i1, op1 := range ops1 {
+					for _, op2 := range ops2 {
+						p := parser.NewParser()
+						_, _, _ = parserCall(p, op1, a, int64(1+i1+len(a)%5))
+						switch sep {
+						case "Reset":
+							p.Reset()
+						case "Release":
+							p.Release()
+						case "PutGet":
+							parser.PutParser(p)
+							p = parser.GetParser()
+							poolDirty = true
+						}
+						if vs := p.VerifState(); vs.Depth != 0 || vs.CtxSet {
+							run.Violate(core.Violation{Sig: "state-differs-from-spec|parser|after-" + op1 + "|depth-or-ctx",
+								Clause: "instance fields at rest equal the specification state (CleanAtRest/CleanInPool)",
+								Case:   map[string]any{"machine": "parser-pairs", "first": a, "op1": op1, "separator": sep}, Observe: vs})
+						}
+						got, _, _ := parserCall(p, op2, b, 1)
+						want, _, _ := parserCall(parser.NewParser(), op2, b, 1)
+						run.Eval(1)
+						n++
+						if got != want {
+							run.Violate(core.Violation{Sig: "result-differs-from-fresh|parser|" + op2 + "|" + diffKind(got, want),
+								Clause: "the outcome of a call depends only on its input and the holder's configuration",
+								Case:   map[string]any{"machine": "parser-pairs", "first": a, "op1": op1, "separator": sep, "second": b, "op2": op2}, Observe: got, Expect: want})
+						}
+					}
+				}
+			}
+			run.Nontrivial("pp" + a + "\x00" + b)
+		}
+	}
+	run.Extra["spelling_pair_runs"] = n
 }
 
 func replay(path string) {
@@ -132,6 +239,7 @@ func replay(path string) {
 		Violation struct {
 			Case struct {
 				Machine string  `json:"machine"`
+				Variant int     `json:"variant"`
 				History []pstep `json:"history"`
 			} `json:"case"`
 		} `json:"violation"`
@@ -140,22 +248,25 @@ func replay(path string) {
 		core.Fatalf("replay: %v", err)
 	}
 	if f.Violation.Case.Machine == "tokenizer" {
-		replayTokenizer(f.Violation.Case.History)
+		replayTokenizer(f.Violation.Case.History, f.Violation.Case.Variant)
 	} else {
-		replayParser(f.Violation.Case.History)
+		replayParser(f.Violation.Case.History, f.Violation.Case.Variant)
 	}
 }
 
 // ---------------------------------------------------------------------------
 // concretisation
 
+// Every abstract input class has several concrete spellings; the spelling used at step i of a history in
+// variant v is chosen pseudo-randomly from (seed, v, i), so that one abstract history is replayed under many
+// concretisations and two occurrences of the same class in a history usually differ.
 var (
-	sqlOf   = map[string]string{}
-	toksOf  = map[string][]models.TokenWithSpan{}
-	posLen  = map[string]int{} // length of the position mapping of each input
-	tokSQL  = map[string]string{}
-	comLen  = map[string]int{}
-	drained = false
+	parserSpell = map[string][]string{}
+	tokSpell    = map[string][]string{}
+	toksOf      = map[string][]models.TokenWithSpan{} // by SQL text
+	posLen      = map[string]int{}                    // by SQL text: length of the position mapping
+	comLen      = map[string]int{}                    // by SQL text: number of comments
+	variants    = 6
 )
 
 func mustTok(sql string) []models.TokenWithSpan {
@@ -170,46 +281,140 @@ func mustTok(sql string) []models.TokenWithSpan {
 	return toks
 }
 
-func nested(d int) string {
-	return "SELECT " + strings.Repeat("(", d) + "1" + strings.Repeat(")", d)
+func wrapN(pre, mid, post string, d int) string {
+	return strings.Repeat(pre, d) + mid + strings.Repeat(post, d)
 }
 
-func prepare() {
-	sqlOf["valid"] = "SELECT a FROM t WHERE a = 1"
-	sqlOf["badA"] = "SELECT a,\n  b FROM t WHERE ) x"
-	sqlOf["badB"] = "SELECT\n\n a FROM t JOIN\n  ,"
-	sqlOf["semis"] = ";; SELECT 1 ;;"
-	sqlOf["mylimit"] = "SELECT a FROM t LIMIT 10, 20"
-	// deep: the largest parenthesis nesting a fresh parser accepts (calibrated, not hard-coded)
-	lo := 1
-	for d := 2; d <= 400; d++ {
+// calibrate returns the largest nesting depth of a construct that a fresh parser accepts.
+func calibrate(name string, build func(d int) string) int {
+	lo := 0
+	for d := 1; d <= 400; d++ {
 		p := parser.NewParser()
-		tree, err := p.ParseFromModelTokens(mustTok(nested(d)))
+		tree, err := p.ParseFromModelTokens(mustTok(build(d)))
 		if err != nil {
 			break
 		}
 		ast.ReleaseAST(tree)
 		lo = d
 	}
-	if lo < 5 || lo >= 400 {
-		core.Fatalf("could not calibrate the nesting limit (largest accepted depth %d)", lo)
+	if lo < 3 || lo >= 400 {
+		core.Fatalf("could not calibrate the nesting limit of %s (largest accepted depth %d)", name, lo)
 	}
-	sqlOf["deep"] = nested(lo)
-	run.Extra["calibrated_max_nesting_accepted"] = lo
-	for k, s := range sqlOf {
-		toksOf[k] = mustTok(s)
-		p := parser.NewParser()
-		_, _ = p.ParseFromModelTokensWithPositions(toksOf[k])
-		posLen[k] = p.VerifState().PositionsLen
+	return lo
+}
+
+func pick(list []string, v, i int, class string) string {
+	h := uint64(run.Seed)*1000003 + uint64(v)*7919 + uint64(i)*104729
+	for _, c := range class {
+		h = h*31 + uint64(c)
 	}
-	tokSQL["plain"] = "SELECT a FROM t WHERE a = 'x'"
-	tokSQL["commented"] = "SELECT a -- first\nFROM t /* block\n comment */ WHERE\n a = 1 -- last"
-	tokSQL["badml"] = "SELECT a -- c1\nFROM t\nWHERE a = 'unterminated"
-	tokSQL["long"] = "SELECT " + strings.Repeat("a, ", 130) + "a FROM t"
-	for k, s := range tokSQL {
-		t, _ := tokenizer.New()
-		_, _ = t.Tokenize([]byte(s))
-		comLen[k] = len(t.Comments)
+	h ^= h >> 17
+	h *= 0x9E3779B97F4A7C15
+	h ^= h >> 29
+	return list[h%uint64(len(list))]
+}
+
+func prepare() {
+	if tier == "thorough" {
+		variants = 24
+	}
+	parens := func(d int) string { return "SELECT " + wrapN("(", "1", ")", d) }
+	funcs := func(d int) string { return "SELECT " + wrapN("f(", "1", ")", d) + " FROM t" }
+	subq := func(d int) string { return "SELECT " + wrapN("(SELECT ", "1", ")", d) }
+	dp, df, ds := calibrate("parentheses", parens), calibrate("function calls", funcs), calibrate("scalar sub-queries", subq)
+	run.Extra["calibrated_max_nesting_accepted"] = map[string]int{"parentheses": dp, "function_calls": df, "scalar_subqueries": ds}
+	parserSpell["valid"] = []string{
+		"SELECT a FROM t WHERE a = 1",
+		"SELECT a, b FROM (SELECT a, b FROM u) s JOIN v ON s.a = v.a",
+		"WITH c AS (SELECT id FROM t) SELECT id FROM c",
+		"INSERT INTO t (a) VALUES (1)",
+	}
+	// failing statements: the error sits inside each kind of nesting construct
+	bad := []string{
+		"SELECT a,\n  b FROM t WHERE ) x",
+		"SELECT\n\n a FROM t JOIN\n  ,",
+		"SELECT a FROM (SELECT b FROM u WHERE ) x) s",
+		"SELECT a FROM t JOIN (SELECT b FROM WHERE) j ON j.b = t.a",
+		"WITH c AS (SELECT FROM t) SELECT 1",
+		"SELECT a FROM t WHERE a IN (SELECT b FROM)",
+		"SELECT CASE WHEN a = THEN 1 END FROM t",
+		"SELECT f(a, (b + ), c) FROM t",
+		"SELECT a FROM t UNION SELECT FROM u",
+		"INSERT INTO t SELECT FROM u",
+		"SELECT a FROM (SELECT b FROM (SELECT c FROM (SELECT d FROM) x) y) z",
+		"SELECT SUM(a) OVER (PARTITION BY ) FROM t",
+		"SELECT a FROM t WHERE EXISTS (SELECT 1 FROM u WHERE (u.a = ))",
+		"SELECT a FROM (SELECT b FROM u",
+		"SELECT a FROM t WHERE b BETWEEN (SELECT 1 FROM) AND 2",
+		"UPDATE t SET a = (SELECT FROM u) WHERE b = 1",
+		parens(dp + 1),
+		funcs(df + 3),
+		"SELECT a FROM " + wrapN("(SELECT a FROM ", "t WHERE )", ") s", 5),
+	}
+	parserSpell["badA"] = bad
+	parserSpell["badB"] = bad
+	parserSpell["semis"] = []string{";; SELECT 1 ;;", "; SELECT a FROM t;;", ";;; SELECT 1; ; SELECT 2"}
+	parserSpell["mylimit"] = []string{"SELECT a FROM t LIMIT 10, 20", "SELECT a FROM (SELECT b FROM u LIMIT 1, 2) s"}
+	parserSpell["deep"] = []string{parens(dp), funcs(df), subq(ds)}
+	for _, l := range parserSpell {
+		for _, s := range l {
+			if _, ok := toksOf[s]; ok {
+				continue
+			}
+			toksOf[s] = mustTok(s)
+			p := parser.NewParser()
+			_, _ = p.ParseFromModelTokensWithPositions(toksOf[s])
+			posLen[s] = p.VerifState().PositionsLen
+		}
+	}
+	// sanity of the concretisation (machinery, not verdicts): each spelling is in its class on a fresh parser
+	for class, l := range parserSpell {
+		for _, s := range l {
+			tree, err := parser.NewParser().ParseFromModelTokens(toksOf[s])
+			if tree != nil {
+				ast.ReleaseAST(tree)
+			}
+			wantOK := class == "valid" || class == "deep" || class == "semis"
+			if class != "mylimit" && (err == nil) != wantOK {
+				core.Fatalf("spelling %q is not in class %s on a fresh parser (err=%v)", s, class, err)
+			}
+		}
+	}
+	tokSpell["plain"] = []string{
+		"SELECT a FROM t WHERE a = 'x'",
+		"x",
+		"\tSELECT a, b FROM t",
+		"\n    SELECT 1",
+		"a\nb",
+		"  \t SELECT 'x'",
+		"\n\n\t\tSELECT\n\t a",
+		"        SELECT 2",
+	}
+	tokSpell["commented"] = []string{
+		"SELECT a -- first\nFROM t /* block\n comment */ WHERE\n a = 1 -- last",
+		"\t/* c */ SELECT 1",
+		"-- only\n   SELECT 1 /* x */",
+		"/* a */ /* b */ x",
+	}
+	tokSpell["badml"] = []string{
+		"SELECT a -- c1\nFROM t\nWHERE a = 'unterminated",
+		"/* c */ a '",
+		"\t\t-- c\n\t\t'abc",
+		"-- c\n\n   \"open",
+	}
+	tokSpell["long"] = []string{
+		"SELECT " + strings.Repeat("a, ", 130) + "a FROM t",
+		"\t SELECT " + strings.Repeat("a,\n ", 120) + "a FROM t",
+	}
+	for class, l := range tokSpell {
+		for _, s := range l {
+			t, _ := tokenizer.New()
+			_, err := t.Tokenize([]byte(s))
+			comLen[s] = len(t.Comments)
+			if (err != nil) != (class == "badml") || (len(t.Comments) > 0) != (class == "commented" || class == "badml") {
+				core.Fatalf("tokenizer spelling %q is not in class %s (err=%v, comments=%d)", s, class, err, len(t.Comments))
+			}
+		}
 	}
 }
 
@@ -257,8 +462,8 @@ func drainPools() {
 // ---------------------------------------------------------------------------
 // parser machine
 
-func parserCall(p *parser.Parser, op, in string) (string, bool, string) {
-	toks := toksOf[in]
+func parserCall(p *parser.Parser, op, sql string, fire int64) (string, bool, string) {
+	toks := toksOf[sql]
 	var tree *ast.AST
 	var err error
 	switch op {
@@ -271,7 +476,7 @@ func parserCall(p *parser.Parser, op, in string) (string, bool, string) {
 	case "CtxDone":
 		tree, err = p.ParseContextFromModelTokens(cancelledCtx(), toks)
 	case "CtxFire":
-		tree, err = p.ParseContextFromModelTokens(&countingCtx{Context: context.Background(), fire: 1}, toks)
+		tree, err = p.ParseContextFromModelTokens(&countingCtx{Context: context.Background(), fire: fire}, toks)
 	case "Recovery":
 		stmts, errs := p.ParseWithRecoveryFromModelTokens(toks)
 		var es []string
@@ -307,15 +512,19 @@ func parserCall(p *parser.Parser, op, in string) (string, bool, string) {
 	return s, true, "nil"
 }
 
-func replayParser(h []pstep) {
-	drainPools()
+func replayParser(h []pstep, v int) {
+	if len(h) > 0 && h[0].Op == "Get" {
+		drainPools() // only a history that starts by drawing from the pool needs it empty
+	}
 	var p *parser.Parser
 	var put *parser.Parser
 	reused := false
 	nontrivial := false
+	used := []string{}
+	posSQL := "" // the input whose position mapping the instance should hold at rest
 	fail := func(i int, sig, clause string, obs, expect any) {
 		run.Violate(core.Violation{Sig: sig, Clause: clause,
-			Case:    map[string]any{"machine": "parser", "history": h[:i+1], "sql": sqlOf},
+			Case:    map[string]any{"machine": "parser", "variant": v, "history": h[:i+1], "sql": used},
 			Observe: obs, Expect: expect})
 	}
 	for i, s := range h {
@@ -353,7 +562,13 @@ func replayParser(h []pstep) {
 			if reused {
 				nontrivial = true
 			}
-			got, ok, loc := parserCall(p, s.Op, s.In)
+			sql := pick(parserSpell[s.In], v, i, s.In)
+			used = append(used, sql)
+			fire := int64(1 + (v+i)%4)
+			if s.Op == "ParsePos" {
+				posSQL = sql
+			}
+			got, ok, loc := parserCall(p, s.Op, sql, fire)
 			// oracle 1: the same call on a fresh instance with the holder's configuration
 			var o []parser.ParserOption
 			if s.St.HStrict {
@@ -362,7 +577,7 @@ func replayParser(h []pstep) {
 			if s.St.HDialect != "" {
 				o = append(o, parser.WithDialect(s.St.HDialect))
 			}
-			want, _, _ := parserCall(parser.NewParser(o...), s.Op, s.In)
+			want, _, _ := parserCall(parser.NewParser(o...), s.Op, sql, fire)
 			if got != want {
 				fail(i, "result-differs-from-fresh|parser|"+s.Op+"|"+diffKind(got, want), "the outcome of a call depends only on its input and the holder's configuration", got, want)
 			}
@@ -379,7 +594,14 @@ func replayParser(h []pstep) {
 						gl = "not-cancelled"
 					}
 				}
-				if ok != s.Exp.Ok || (!ok && gl != el) {
+				// Not every error site attaches a location even when a mapping exists (that is C05/C13's
+				// business): "set" in the specification only permits a location, "nil" forbids one.
+				locOK := gl == el || (el == "set" && gl == "nil")
+				// A context that fires at the k-th poll only cancels calls that poll at least k+1 times.
+				if s.Op == "CtxFire" && !strings.Contains(want, "context canceled") {
+					locOK, ok = true, s.Exp.Ok
+				}
+				if ok != s.Exp.Ok || (!ok && !locOK) {
 					fail(i, "outcome-class-differs-from-spec|parser|"+s.Op+"|"+s.In, "call outcome equals Res(op, input, holder configuration) of ParserInst.tla",
 						map[string]any{"ok": ok, "loc": gl, "result": got}, s.Exp)
 				}
@@ -394,7 +616,7 @@ func replayParser(h []pstep) {
 		}
 		if (s.St.Pos == "nil") != (!vs.PositionsSet || vs.PositionsLen == 0) {
 			bad = append(bad, "positions")
-		} else if s.St.Pos != "nil" && vs.PositionsLen != posLen[s.St.Pos] {
+		} else if s.St.Pos != "nil" && vs.PositionsLen != posLen[posSQL] {
 			bad = append(bad, "positions-of-other-input")
 		}
 		if vs.Strict != s.St.Strict {
@@ -415,10 +637,10 @@ func replayParser(h []pstep) {
 		run.Eval(1)
 	}
 	if nontrivial {
-		run.Nontrivial("p" + core.JSON(h))
+		run.Nontrivial(fmt.Sprintf("p%d%s", v, core.JSON(h)))
 	}
-	if len(h) >= 3 {
-		run.Sample(map[string]any{"machine": "parser", "history": compact(h)})
+	if len(h) >= 4 && v == 1 {
+		run.Sample(map[string]any{"machine": "parser", "history": compact(h), "sql": used})
 	}
 }
 
@@ -461,8 +683,8 @@ func diffKind(got, want string) string {
 // ---------------------------------------------------------------------------
 // tokenizer machine
 
-func tokCall(t *tokenizer.Tokenizer, op, in string) (res string, out string) {
-	input := []byte(tokSQL[in])
+func tokCall(t *tokenizer.Tokenizer, op, sql string) (res string, out string) {
+	input := []byte(sql)
 	var toks []models.TokenWithSpan
 	var err error
 	switch op {
@@ -504,13 +726,17 @@ func newTok(d string) *tokenizer.Tokenizer {
 	return t
 }
 
-func replayTokenizer(h []pstep) {
-	drainPools()
+func replayTokenizer(h []pstep, v int) {
+	if len(h) > 0 && h[0].Op == "Get" {
+		drainPools()
+	}
 	var t, put *tokenizer.Tokenizer
 	reused, nontrivial := false, false
+	used := []string{}
+	comSQL := ""
 	fail := func(i int, sig, clause string, obs, expect any) {
 		run.Violate(core.Violation{Sig: sig, Clause: clause,
-			Case:    map[string]any{"machine": "tokenizer", "history": h[:i+1], "sql": tokSQL},
+			Case:    map[string]any{"machine": "tokenizer", "variant": v, "history": h[:i+1], "sql": used},
 			Observe: obs, Expect: expect})
 	}
 	for i, s := range h {
@@ -534,8 +760,13 @@ func replayTokenizer(h []pstep) {
 			if reused {
 				nontrivial = true
 			}
-			got, out := tokCall(t, s.Op, s.In)
-			want, _ := tokCall(newTok(s.St.HDialect), s.Op, s.In)
+			sql := pick(tokSpell[s.In], v, i, s.In)
+			used = append(used, sql)
+			if s.Op != "CtxDone" {
+				comSQL = sql
+			}
+			got, out := tokCall(t, s.Op, sql)
+			want, _ := tokCall(newTok(s.St.HDialect), s.Op, sql)
 			if got != want {
 				fail(i, "result-differs-from-fresh|tokenizer|"+s.Op+"|"+diffKind(got, want), "the outcome of a call depends only on its input and the holder's configuration", got, want)
 			}
@@ -551,7 +782,7 @@ func replayTokenizer(h []pstep) {
 		}
 		wantCom := 0
 		if s.St.Com != "none" {
-			wantCom = comLen[s.St.Com]
+			wantCom = comLen[comSQL]
 		}
 		if vs.CommentsLen != wantCom {
 			bad = append(bad, "comments")
@@ -568,9 +799,9 @@ func replayTokenizer(h []pstep) {
 		run.Eval(1)
 	}
 	if nontrivial {
-		run.Nontrivial("t" + core.JSON(h))
+		run.Nontrivial(fmt.Sprintf("t%d%s", v, core.JSON(h)))
 	}
-	if len(h) >= 3 {
-		run.Sample(map[string]any{"machine": "tokenizer", "history": compact(h)})
+	if len(h) >= 4 && v == 1 {
+		run.Sample(map[string]any{"machine": "tokenizer", "history": compact(h), "sql": used})
 	}
 }
